@@ -16,6 +16,7 @@ CONSTANTS
   Dynamic,     \* TRUE: Glommers are created by a NewGlommer action; FALSE: they exist initially
   MaxReg, MaxLook, MaxNew,
   KwChoices,   \* set of sets of op names a register() call may pass handlers for
+  OffChoices,  \* set of sets of op names that may be passed as False (op=False) among those
   LookOps,     \* ops a Lookup action may ask for
   ReReg,       \* TRUE: a type may be registered again (new handler, any exact flag)
   AllOrders,   \* TRUE: Init also ranges over every iteration order of register_op's known-type set
@@ -118,7 +119,10 @@ Families ==
    builtins |-> [regt |-> <<"MD", "MD2", "ML", "MO">>,  objs |-> <<"MD3", "ML2", "MT", "MO", "list">>],
    slots    |-> [regt |-> <<"S1", "S2", "S3">>,         objs |-> <<"S2", "S3", "S4">>],
    ducks    |-> [regt |-> <<"N1", "N2", "I1">>,         objs |-> <<"N1", "N3", "I2", "OrderedDict">>],
-   objroot  |-> [regt |-> <<"object", "C1", "C2">>,     objs |-> <<"object", "C3", "tuple">>]]
+   objroot  |-> [regt |-> <<"object", "C1", "C2">>,     objs |-> <<"object", "C3", "tuple">>],
+   \* types that are both registered and looked up (memo of a type's own entry, False handlers)
+   own      |-> [regt |-> <<"MD", "ML", "MO">>,         objs |-> <<"MD", "ML", "MO", "ML2">>],
+   ownchain |-> [regt |-> <<"C1", "C2", "C3">>,         objs |-> <<"C2", "C3", "C4">>]]
 
 \* ---- the order in which register_op iterated over its set of known types in this process -------
 Pos == [object |-> PosObject, dict |-> PosDict, list |-> PosList, tuple |-> PosTuple, OrderedDict |-> PosOD,
@@ -150,7 +154,7 @@ DoRegister ==
   /\ Count("reg") < MaxReg
   /\ \E r \in DOMAIN regs : \E t \in RegT : \E exact \in BOOLEAN : \E ops \in KwChoices :
        /\ (ReReg \/ ~UserRegistered(r, t))
-       /\ Register(r, t, SeqOf(ops), exact)
+       /\ \E off \in OffChoices : off \subseteq ops /\ Register(r, t, SeqOf(ops), exact, SeqOf(off))
 DoLookup ==
   /\ Count("look") < MaxLook
   /\ \E r \in DOMAIN regs : \E T \in Objs : \E op \in LookOps : Lookup(r, T, op)
